@@ -19,7 +19,7 @@ func (c01) Runs(tier string) int {
 	if tier == "thorough" {
 		return 15000000
 	}
-	return 1000000
+	return 600000
 }
 func (c01) Rule() string {
 	return "history of 1-25 mutators (swarm subset of Push/Pop/Insert/Remove/Replace/Swap/Reverse/Reset/SetFIFO/index-option flips) on one stack of random kind/capacity/options, full re-observation (Len, IsEmpty, Index over -len-1..len+1, Front, Back) after every op; non-trivial = at least 3 ops of at least 2 different kinds that changed the content; distinct = hash(kind, options, op-kind sequence, lengths)"
